@@ -81,6 +81,24 @@ def get_program(case):
         return g.program()
     if case["gen"] == "ast":
         return [(n, list(st)) for n, st in case["prog"]]
+    if case["gen"] == "c02":
+        from . import c02
+
+        g = c02.FlowGen(random.Random(case["seed"]), zero_trip=case["seed"] % 7 == 0)
+        return g.program(2 + case["seed"] % 5, c02.VALUATIONS[case["seed"] % len(c02.VALUATIONS)])
+    if case["gen"] == "c03":
+        from . import c03
+
+        return c03.DataGen(random.Random(case["seed"]), 80).program(1 + case["seed"] % 4)
+    if case["gen"] == "c05":
+        from . import c05
+
+        pool = c05.NUM_EXPRS if case["seed"] % 3 else c05.STR_EXPRS
+        carriers = c05.NUM_CARRIERS if case["seed"] % 3 else c05.STR_CARRIERS
+        e = pool[case["seed"] % len(pool)][1]
+        cn = carriers[(case["seed"] // len(pool)) % len(carriers)]
+        return [(5, [("dim", [("X", [20], ["20"]), ("Y", [20], ["20"]), ("S$", [5], ["5"]), ("Z", [20, 5], ["20", "5"])])]),
+                (10, c05.SETUP), (20, c05.FILL)] + c05.carrier(cn, e)
     if case["gen"] == "c01":
         from . import c01
         import itertools
@@ -142,7 +160,7 @@ def run_case(case):
 
 
 def cases(tier, seed):
-    n = 1500 if tier == "quick" else 40000
+    n = 1500 if tier == "quick" else 150000
     for i in range(n):
         yield {"gen": "prog", "seed": seed * 1000003 + i, "opt": i, "sample": i % 211 == 0}
     # simpler programs (fewer features per program give more accepted programs per kind)
@@ -157,9 +175,14 @@ def cases(tier, seed):
     for t in SINGLE_STATEMENTS:
         for o in (0, 1, 4):
             yield {"gen": "text", "text": t, "opt": o}
-    m = 300 if tier == "quick" else 3000
+    m = 300 if tier == "quick" else 15000
     for i in range(m):
         yield {"gen": "c01", "index": (i * 13) % 3000, "opt": i}
+    # the union pool: programs of the behavioural workloads are structurally checked here too
+    for i in range(m):
+        yield {"gen": "c02", "seed": seed * 31 + i, "opt": i}
+        yield {"gen": "c03", "seed": seed * 37 + i, "opt": i}
+        yield {"gen": "c05", "seed": seed * 41 + i, "opt": i}
 
 
 SINGLE_STATEMENTS = [
